@@ -471,7 +471,7 @@ func init() {
 			var scs []scenario
 			for _, sc := range c08Scenarios() {
 				sc := sc
-				if (len(sc.writers) > 2 && tier == "quick") || sc.full {
+				if (len(sc.writers) > 2 && tier == "quick") || sc.full || len(sc.writers) > 3 {
 					continue // (full: 16K filler rows, only the whole-snapshot oracle of C08 knows them)
 				}
 				b := 2
